@@ -30,7 +30,7 @@ import (
 // Cache implement keystore.Cache
 type Cache struct {
 	lru   *lru.Cache
-	mutex sync.RWMutex
+	mutex sync.Mutex
 }
 
 // clearCacheValue callback for lru.Cache that called on value remove operation
@@ -50,20 +50,38 @@ func NewCacheKeystoreWrapper(size int) (*Cache, error) {
 	return cache, nil
 }
 
+// copyValue returns a copy of the value that shares no memory with it.
+// nil stays nil: the keystore caches nil to mark destroyed keys.
+func copyValue(value []byte) []byte {
+	if value == nil {
+		return nil
+	}
+	result := make([]byte, len(value))
+	copy(result, value)
+	return result
+}
+
 // Add value by keyID
+//
+// The cache keeps its own copy of the value: cached values are zeroized on eviction,
+// so they must not share memory with slices that callers still hold.
 func (cache *Cache) Add(keyID string, keyValue []byte) {
 	cache.mutex.Lock()
-	cache.lru.Add(keyID, keyValue)
+	cache.lru.Add(keyID, copyValue(keyValue))
 	cache.mutex.Unlock()
 }
 
 // Get value by keyID
+//
+// Returns a copy of the cached value: the cached one can be evicted and zeroized
+// by a concurrent Add at any moment after the lock is released.
+// lru.Cache.Get reorders the list of entries, hence the exclusive lock.
 func (cache *Cache) Get(keyID string) ([]byte, bool) {
-	cache.mutex.RLock()
-	defer cache.mutex.RUnlock()
+	cache.mutex.Lock()
+	defer cache.mutex.Unlock()
 	value, ok := cache.lru.Get(keyID)
 	if ok {
-		return value.([]byte), ok
+		return copyValue(value.([]byte)), ok
 	}
 	return nil, ok
 }
